@@ -98,6 +98,12 @@ def main(argv=None):
         for f in getattr(r, 'undecided_failures', []) or []:
             if pid in f.props:
                 undecided.append(f)
+    # a unit whose extraction failed (a contract anchor no longer matches the changed code) decides nothing by proof; like an
+    # unprocessable function, it is handed to the replay harness of the property as ONE undecided pseudo-clause
+    for r in runs:
+        if r.status == 'inconclusive' and r.out is None and str(getattr(r, 'reason', '')).startswith('anchor lost') and spec.get('witness'):
+            pf = Failure(r.unit, f'{r.unit}::extraction#anchor-lost', 'not verifiable: ' + r.reason[:300], [], r.reason, props=[pid])
+            undecided.append(pf)
     if extra and extra.get('inconclusive'):
         inconclusive.append(extra['inconclusive'])
     # ---- obligations of this property
